@@ -23,10 +23,14 @@ from mc.vloop import VLoop
 
 
 def hp(i):
+    if i % 4 == 3:   # a long payload (data field beyond 128 bytes: the far half of the randomisation sequence); wrap runs only
+        return bytes([0x80 + i, i]) + bytes((k * 7 + i) & 0xFF for k in range(178))
     return bytes([0x80 + i, i, 0x7E, 0x11, 0x7D])
 
 
 def npay(j):
+    if j % 4 == 3:
+        return bytes([0x40 + j, j]) + bytes((k * 11 + j) & 0xFF for k in range(198))
     return bytes([0x40 + j, j, 0x13, 0x1A, 0x18])
 
 
